@@ -8,6 +8,7 @@ From SV Require Import Fmt.LongString Fmt.LongStringProofs Fmt.FgdBin Fmt.FgdBin
 From SV Require Import Fmt.FgdBinEnt Fmt.FgdBinEntProofs Fmt.FgdLine Fmt.FgdLineProofs Fmt.FgdLineTextProofs Fmt.FgdBody Fmt.FgdBodyProofs.
 From SV Require Import Fmt.FgdHead Fmt.FgdHeadProofs Fmt.FgdEntity Fmt.FgdEntityProofs.
 From SV Require Import Fmt.FgdTypeText Fmt.FgdTypeTextProofs SM.FgdBlocks SM.FgdBlocksProofs Fmt.FgdKindKw Fmt.FgdKindKwProofs.
+From SV Require Import SM.FgdCopyShare SM.FgdCopyShareProofs.
 From SV Require Import Gen.FgdConsts_gen.
 Import ListNotations.
 Open Scope N_scope.
@@ -880,6 +881,46 @@ Example c16_kind_keyword_example :
   kw_dispatch true [[64; 105]] [pc] (kind_written ops pc) = KKind pc /\ kw_dispatch false [[64; 105]] [pc] (kind_written ops pc) = KError.
 Proof. vm_compute. auto. Qed.
 
+(** * What a copy shares with the cached definition (SM/FgdCopyShare.v; round 5)
+    EntityDef.engine_def() and FGD.engine_dbase() return deepcopy() results of the definitions the engine database caches, so a
+    history "look up, change the answer in place, look up again / load the whole database" gives the same definitions only if
+    EntityDef.__deepcopy__ (hand-written, field by field) re-creates every mutable object a caller can reach.
+    [entity_copy_plan] is read off the source on every run: for every attribute the shape its annotation promises and the
+    expression that produces the copy's value (KVDef.copy / IODef.copy followed into their constructor calls).
+    For EVERY shape, expression and value of that shape: if [isolates] accepts the pair, no object of the copy is an object of
+    the original, so no in-place change of anything reachable from the copy changes the original. *)
+Definition copy_field_isolates (f : string) : bool :=
+  match find (fun p => String.eqb (fst p) f) entity_copy_plan with Some (_, (t, e)) => isolates e t | None => false end.
+Definition entity_copy_isolates : bool := plan_isolates (map snd entity_copy_plan).
+Theorem c16_copy_is_fresh : forall base v e t, has_type t v = true -> isolates e t = true ->
+  Forall (fun a => base <= a) (addrs (do_copy base e v)).
+Proof. exact copy_is_fresh. Qed.
+Theorem c16_copy_isolated : forall base e t v, has_type t v = true -> isolates e t = true ->
+  Forall (fun a => a < base) (addrs v) ->
+  forall a new, In a (addrs (do_copy base e v)) -> update a new v = v.
+Proof. exact copy_isolated. Qed.
+Theorem c16_entity_copy_isolated : forall p : plan, plan_isolates p = true ->
+  forall t e, In (t, e) p -> forall base v, has_type t v = true -> Forall (fun a => a < base) (addrs v) ->
+  forall a new, In a (addrs (do_copy base e v)) -> update a new v = v.
+Proof. exact plan_isolated. Qed.
+(** the two wrong shapes that were met.  (1) the I/O maps are copied with `io_map.copy()`: the IODef objects (address 3) are
+    shared, renaming the copy's input renames the cached one.  (2) `copy.resources = self.resources` (repaired by 35646f6): the
+    list itself (address 1) is shared, an append through the copy is an append to the cached definition. *)
+Definition io_shape : ftype := TColl (TColl (TObj [TImm; TImm; TImm])).
+Definition io_value : val := VMut 1 [VMut 2 [VMut 3 [VImm 7; VImm 0; VImm 9]]].
+Example c16_shared_io_objects_refuted :
+  has_type io_shape io_value = true /\ isolates (CMap CShallow) io_shape = false
+  /\ In 3 (addrs (do_copy 100 (CMap CShallow) io_value)) /\ update 3 [VImm 8; VImm 0; VImm 9] io_value <> io_value
+  /\ isolates (CMap (CMap (CObj [CShare; CShare; CShare]))) io_shape = true
+  /\ addrs (do_copy 100 (CMap (CMap (CObj [CShare; CShare; CShare]))) io_value) = [101; 102; 103].
+Proof. repeat split; try (vm_compute; reflexivity); try discriminate. vm_compute. auto. Qed.
+Example c16_shared_resources_list_refuted :
+  let v := VMut 1 [VImm 4; VImm 5] in
+  has_type (TColl TImm) v = true /\ isolates CShare (TColl TImm) = false /\ In 1 (addrs (do_copy 100 CShare v))
+  /\ update 1 [VImm 4; VImm 5; VImm 6] v <> v /\ isolates CShallow (TColl TImm) = true /\ addrs (do_copy 100 CShallow v) = [101].
+Proof. cbv zeta. repeat split; try (vm_compute; reflexivity); try discriminate. vm_compute. auto. Qed.
+Definition shared_io_objects_break : bool := negb (isolates (CMap CShallow) io_shape) && negb (isolates CShare (TColl TImm)).
+
 (** * The whole property in one statement, for today's source (round 4)
     The hypotheses are the named booleans over the objects that translate/c16_fgd.py regenerates from the source on every run; the
     check discharges each of them, and their conjunction [c16_property_hypotheses], by vm_compute (instance obligations).  The
@@ -925,10 +966,10 @@ Definition multi_lazy_equals_eager_at (via : bool) (mode : merge_mode) : Prop :=
   = map (engine_dbase name ent bytes name_eqb decode ent_bases is_empty empty_bytes via mode g Bs) qs.
 Definition c16_property_hypotheses : bool :=
   line_cfg_ok gen_line_cfg && kv_type_prog_ok && io_type_prog_ok && type_table_ok && kind_keywords_read_back
-  && blocks_cfg_ok && lazy_via_get_ent && multi_modes_agree && helper_args_ok.
-Fact and9_true (a b c d e f g h i : bool) : a && b && c && d && e && f && g && h && i = true ->
-  a = true /\ b = true /\ c = true /\ d = true /\ e = true /\ f = true /\ g = true /\ h = true /\ i = true.
-Proof. destruct a, b, c, d, e, f, g, h, i; cbn; intros; try discriminate; repeat split. Qed.
+  && blocks_cfg_ok && lazy_via_get_ent && multi_modes_agree && helper_args_ok && entity_copy_isolates.
+Fact and10_true (a b c d e f g h i j : bool) : a && b && c && d && e && f && g && h && i && j = true ->
+  a = true /\ b = true /\ c = true /\ d = true /\ e = true /\ f = true /\ g = true /\ h = true /\ i = true /\ j = true.
+Proof. destruct a, b, c, d, e, f, g, h, i, j; cbn; intros; try discriminate; repeat split. Qed.
 Fact line_cfg_ok_parts (c : line_cfg) : line_cfg_ok c = true -> colons_before_desc_without_default c = 2%nat /\ res_block_if_defined c = true.
 Proof.
   unfold line_cfg_ok. intros H. apply andb_true_iff in H as [H R]. apply andb_true_iff in H as [H _]. split; [apply Nat.eqb_eq; exact H | exact R].
@@ -950,14 +991,17 @@ Theorem c16_property : c16_property_hypotheses = true ->
         (forall x, count_occ N.eq_dec order x = count_occ N.eq_dec (leftovers all (pair_loop gen_bcfg size maxsz pairs)) x) ->
         forall x, count_occ N.eq_dec (List.concat (build_with gen_bcfg size maxsz pairs order)) x = count_occ N.eq_dec all x)
   /\ multi_lazy_equals_eager_at lazy_via_get_ent engine_dbase_merge
-  /\ (forall args, args_ok args -> paren_args_with gen_args_cfg (join_cs args) = args).
+  /\ (forall args, args_ok args -> paren_args_with gen_args_cfg (join_cs args) = args)
+  /\ (forall f t e, In (f, (t, e)) entity_copy_plan -> forall base v, has_type t v = true -> Forall (fun a => a < base) (addrs v) ->
+        forall a new, In a (addrs (do_copy base e v)) -> update a new v = v).
 Proof.
-  intros H. destruct (and9_true _ _ _ _ _ _ _ _ _ H) as (L & K & I & T & W & B & V & M & A). clear H.
+  intros H. destruct (and10_true _ _ _ _ _ _ _ _ _ _ H) as (L & K & I & T & W & B & V & M & A & S). clear H.
   unfold helper_args_ok in A. apply andb_true_iff in A as [A _].
   destruct (line_cfg_ok_parts _ L) as [C2 R].
   unfold multi_modes_agree in M. apply andb_true_iff in M as [M _]. apply merge_is_first_eq in M.
   pose proof (type_text_property_gen kv_type_prog io_type_prog vt_lookup_tab TARGET_DESTINATION K I T) as (P1 & P2 & P3).
-  split; [|split; [|split; [|split; [|split]]]].
+  split; [|split; [|split; [|split; [|split; [|split]]]]].
+  7: { intros f t e Hin. apply (plan_isolated (map snd entity_copy_plan) S t e). apply (in_map snd _ _ Hin). }
   6: { intros. apply paren_args_with_roundtrip; assumption. }
   - unfold entity_text_roundtrip_at. intros. apply entity_roundtrip; assumption.
   - exact (conj P1 (conj P2 P3)).
